@@ -1,5 +1,6 @@
 import ImathVerif.Lemmas.RayBoxLemmas
 import ImathVerif.Lemmas.RayBoxPoints
+import ImathVerif.Lemmas.RayBoxOracleLemmas
 /-!
 # C14 — ray-box and line-box intersection are geometrically exact
 
@@ -44,6 +45,11 @@ a face value; per axis
   with the ℚ witness `findEntryAndExitPoints_unwritten_witness`;
 * `*_false_hit_only_if`: a `true` answer that is geometrically wrong needs a non-zero
   component whose guard as written fails.
+
+* `oracleLine_iff`, `oracleRay_iff`, `spec_*`: the exact interval oracle the correspondence driver
+  EXECUTES at `Rat` (`Model/RayBoxOracle.lean`) is a proved decision procedure for
+  `∃ t, mem (pointAt r t) b` / `∃ t ≥ 0, …`, and the points it reports are the first / last
+  parameter of the line inside the box (first contact of the ray).  No hypotheses.
 
 `strictGuard_of_codeGuard` (Lemmas): `CodeGuard` and `|max-pos| ≤ T`, `|min-pos| ≤ T`
 imply `StrictGuard`; so for floats whose differences do not overflow the
@@ -361,6 +367,81 @@ example : ¬ CodeGuard (4 : ℚ) (1/2) (1/100) 0 1 := by norm_num [CodeGuard]
 example : (findEntryAndExitPoints (4 : ℚ) ⟨⟨-1, 1/2, 1/2⟩, ⟨1, 1/100, 0⟩⟩ exBox z3 z3) =
     (true, ⟨0, 51/100, 1/2⟩, ⟨1, 13/25, 1/2⟩) := by decide +kernel
 end NonVacuity
+
+/-! ### The exact oracle of the correspondence is a PROVED decision procedure
+
+`lineIval` / `rayIval` / `oracleLine` / `oracleRay` / `spec` (`Model/RayBoxOracle.lean`, core Lean, generic
+scalar) are what `drv_raybox` evaluates at `Rat` as "the exact answer" on every lattice and in the
+guard sweep.  Over any ordered field, with NO hypothesis (empty boxes, zero directions included): -/
+
+/-- The line oracle decides exactly whether the full line meets the closed box. -/
+theorem oracleLine_iff (r : Line3 α) (b : Box3 α) :
+    oracleLine r b = true ↔ ∃ t, mem (pointAt r t) b :=
+  sem_isSome (sem_lineIval r b)
+
+/-- The ray oracle decides exactly whether some point with `t ≥ 0` lies in the closed box. -/
+theorem oracleRay_iff (r : Line3 α) (b : Box3 α) :
+    oracleRay r b = true ↔ ∃ t, 0 ≤ t ∧ mem (pointAt r t) b :=
+  sem_isSome (sem_rayIval r b)
+
+theorem spec_feHit_iff (r : Line3 α) (b : Box3 α) : (spec r b).feHit = true ↔ ∃ t, mem (pointAt r t) b :=
+  oracleLine_iff r b
+
+theorem spec_isHit_iff (r : Line3 α) (b : Box3 α) : (spec r b).isHit = true ↔ ∃ t, 0 ≤ t ∧ mem (pointAt r t) b :=
+  oracleRay_iff r b
+
+/-- The oracle's `entry`, when defined, is the point of the SMALLEST parameter inside the box. -/
+theorem spec_entry (r : Line3 α) (b : Box3 α) (p : V3 α) (h : (spec r b).entry = some p) :
+    ∃ tE, p = pointAt r tE ∧ mem p b ∧ ∀ t, mem (pointAt r t) b → tE ≤ t := by
+  have hs := sem_lineIval r b
+  simp only [spec] at h
+  cases hl : lineIval r b with
+  | none => rw [hl] at h; exact absurd h (by simp)
+  | some i =>
+    rw [hl] at h hs
+    by_cases hf : i.loInf = true
+    · simp [hf] at h
+    · have hf' : i.loInf = false := by simpa using hf
+      simp only [hf', Bool.false_eq_true, if_false, Option.some.injEq] at h
+      obtain ⟨h1, h2⟩ := sem_lo_least hs hf'
+      exact ⟨i.lo, h.symm, by rw [← h]; exact h1, h2⟩
+
+/-- The oracle's `exit`, when defined, is the point of the LARGEST parameter inside the box. -/
+theorem spec_exit (r : Line3 α) (b : Box3 α) (p : V3 α) (h : (spec r b).exit = some p) :
+    ∃ tX, p = pointAt r tX ∧ mem p b ∧ ∀ t, mem (pointAt r t) b → t ≤ tX := by
+  have hs := sem_lineIval r b
+  simp only [spec] at h
+  cases hl : lineIval r b with
+  | none => rw [hl] at h; exact absurd h (by simp)
+  | some i =>
+    rw [hl] at h hs
+    by_cases hf : i.hiInf = true
+    · simp [hf] at h
+    · have hf' : i.hiInf = false := by simpa using hf
+      simp only [hf', Bool.false_eq_true, if_false, Option.some.injEq] at h
+      obtain ⟨h1, h2⟩ := sem_hi_greatest hs hf'
+      exact ⟨i.hi, h.symm, by rw [← h]; exact h1, h2⟩
+
+/-- The oracle's `ip` is defined exactly when the ray hits, and is the FIRST contact. -/
+theorem spec_ip (r : Line3 α) (b : Box3 α) :
+    ((spec r b).ip.isSome = (spec r b).isHit) ∧
+    ∀ p, (spec r b).ip = some p →
+      ∃ t0, 0 ≤ t0 ∧ p = pointAt r t0 ∧ mem p b ∧ ∀ t, 0 ≤ t → mem (pointAt r t) b → t0 ≤ t := by
+  have hs := sem_rayIval r b
+  simp only [spec, oracleRay]
+  cases hl : rayIval r b with
+  | none => exact ⟨rfl, fun p h => absurd h (by simp)⟩
+  | some i =>
+    rw [hl] at hs
+    refine ⟨rfl, fun p h => ?_⟩
+    simp only [Option.some.injEq] at h
+    obtain ⟨hfin, h0⟩ := sem_lo_finite_of_nonneg hs (fun t ht => ht.1)
+    obtain ⟨h1, h2⟩ := sem_lo_least hs hfin
+    exact ⟨i.lo, h0, h.symm, by rw [← h]; exact h1.2, fun t ht hm => h2 t ⟨ht, hm⟩⟩
+
+/-- Non-vacuity / sanity: the oracle evaluated by the kernel on the skew grazing ray. -/
+example : oracleLine exSkew exBox = true ∧ oracleRay exSkew exBox = true ∧
+    (spec exSkew exBox).entry = some ⟨0, 0, 3/8⟩ ∧ (spec exSkew exBox).exit = some ⟨1, 1, 1/4⟩ := by decide +kernel
 
 /-! ### The hypotheses are necessary: concrete witnesses over ℚ (the model evaluated by the kernel)
 
